@@ -30,7 +30,10 @@ RULE = ("dense: every shape with <= 36 cells and order <= 4 (thorough; a seeded 
         "with extents >= 2 and some singleton-padded shapes, every choice of one group or of two disjoint groups "
         "of equal length among modes of equal extent (proper subsets, non-adjacent modes, unsorted groups, "
         "1-d / None argument conventions), plus 2^6 with three groups of two and with two groups of three modes, data = small integers of both signs with zeros (random), "
-        "class-constant (symmetric) and symmetric with one entry changed (nearly symmetric); both versions, "
+        "class-constant (symmetric) and symmetric with one entry changed (nearly symmetric); every dense case with "
+        "seven storage variants of the same logical operand (constructor-built F-contiguous; `.data` replaced by a "
+        "C-contiguous copy; by a view contiguous in neither order; tensor grown by assignment past its extent; "
+        "float64 and int64); both versions, "
         "details on/off; Kruskal: cubic integer factor matrices of order 2..4, rank 1..3; malformed groups "
         "(unequal extents, overlapping, out of range, negative, empty, a mode listed twice) in a separate stream; non-trivial = accepted and "
         "more than one cell in a group of at least two modes; distinct = distinct case hash")
@@ -169,7 +172,7 @@ FIXED = [
     ([3, 2, 2], [[1, 2]]), ([2, 3, 2], [[0, 2]]), ([2, 2, 3], [[0, 1]]), ([3, 3, 3], [[0, 2]]),
     ([3, 3, 3], [[0, 1, 2]]), ([2, 2, 2, 2], [[0, 3], [1, 2]]), ([2, 2, 2, 2], [[0, 1, 2, 3]]),
     ([2, 2, 2, 2, 2], [[0, 2, 4]]), ([2, 2, 2, 2, 2], [[0, 1, 2, 3, 4]]), ([1, 1, 1, 2, 2, 2], [[0, 1, 2], [3, 4, 5]]),
-    ([4, 4], [[0, 1]]), ([6, 6], [[0, 1]]), ([2, 3], [[0], [1]]), ([5], [[0]]), ([3, 3, 4], [[1, 0]]),
+    ([3, 3, 4], [[0, 1]]), ([2, 2, 3, 3], [[2, 3]]), ([2, 2, 3, 3], [[0, 1]]), ([4, 4], [[0, 1]]), ([6, 6], [[0, 1]]), ([2, 3], [[0], [1]]), ([5], [[0]]), ([3, 3, 4], [[1, 0]]),
     ([2, 2, 2], [[2, 0, 1]]), ([2, 3, 2, 3], [[3, 1], [2, 0]]), ([1, 3, 1, 3], [[0, 2], [1, 3]]),
     # three groups (64 cells; every average is a multiple of 1/8, so still exact)
     ([2, 2, 2, 2, 2, 2], [[0, 1], [2, 3], [4, 5]]), ([2, 2, 2, 2, 2, 2], [[0, 3], [1, 4], [2, 5]]),
@@ -232,6 +235,96 @@ def model_grps(case):
     return None if case["conv"] == "none" else case["grps"]
 
 
+# ----------------------------------------------------------------------------------------------
+# how the operand is stored: the routines must pair values with subscripts by the tensor's logical
+# (first index fastest) order whatever the memory layout / dtype of `.data` is
+# ----------------------------------------------------------------------------------------------
+VARIANTS = (("F", "float"), ("C", "float"), ("strided", "float"), ("grown", "float"), ("grown", "int"),
+            ("C", "int"), ("F", "int"))
+
+
+def build_tensor(c):
+    """(tensor, layout actually obtained).  layout F: constructor; C: `.data` replaced by a C-contiguous copy;
+    strided: `.data` replaced by a view that is contiguous in neither order; grown: a smaller tensor enlarged by
+    assigning past its extent (the public API then holds a C-ordered buffer), remaining entries assigned one by one."""
+    shape = tuple(c["shape"])
+    dt = np.int64 if c.get("dtype") == "int" else float
+    A = np.array(c["data"], dtype=dt).reshape(shape, order="F")
+    lay = c.get("layout", "F")
+    X = None
+    if lay == "grown":
+        ms = [m for m in range(len(shape)) if shape[m] >= 2]
+        if ms:
+            m = ms[-1]
+            try:
+                base = np.take(A, range(shape[m] - 1), axis=m)
+                X = ttb.tensor(np.array(base, dtype=dt, order="F"), copy=True)
+                for sub in gen.all_subs(list(shape)):
+                    if sub[m] == shape[m] - 1:
+                        val = A[tuple(sub)]
+                        X[tuple(sub)] = int(val) if dt is not float else float(val)
+                if tuple(int(x) for x in X.shape) != shape:
+                    X = None
+            except Exception:  # noqa: BLE001
+                X = None
+        if X is None:
+            lay = "C"
+    if lay == "C":
+        X = ttb.tensor(np.array(A, order="F"), copy=True)
+        X.data = np.ascontiguousarray(A)
+    elif lay == "strided":
+        big = np.full(shape + (2,), -7, dtype=dt)
+        big[..., 0] = A
+        X = ttb.tensor(np.array(A, order="F"), copy=True)
+        X.data = big[..., 0]
+    elif lay == "F":
+        X = ttb.tensor(np.array(A, order="F"), copy=True)
+    got = dense_j(X)
+    if got["shape"] != list(shape) or not deep_eq(got["data"], jval(list(c["data"]))):
+        raise DriverError(f"harness could not build the operand of {c} (got {got})")
+    return X, lay
+
+
+def layout_tags(c, X, lay):
+    fl = X.data.flags
+    contig = "Fcontig" if fl["F_CONTIGUOUS"] else ("Ccontig" if fl["C_CONTIGUOUS"] else "noncontig")
+    return [f"layout-{lay}", f"dtype-{c.get('dtype', 'float')}", contig]
+
+
+def with_variants(cases):
+    """every case with every storage variant of its operand (same logical tensor)."""
+    out = []
+    for c in cases:
+        for lay, dt in VARIANTS:
+            out.append(dict(c, layout=lay, dtype=dt))
+    return out
+
+
+def drive_memo(reqs):
+    """drive(), but identical requests (the storage variants of one logical case) are sent once."""
+    import json as _json
+    keys = [_json.dumps(r, sort_keys=True) for r in reqs]
+    uniq, pos = [], {}
+    for k, r in zip(keys, reqs):
+        if k not in pos:
+            pos[k] = len(uniq)
+            uniq.append(r)
+    res = drive(uniq)
+    return [res[pos[k]] for k in keys]
+
+
+_REF = {}
+
+
+def ref_average_memo(shape, data, grps):
+    k = (tuple(shape), tuple(data), tuple(tuple(g) for g in grps))
+    if k not in _REF:
+        if len(_REF) > 20000:
+            _REF.clear()
+        _REF[k] = ref_average(shape, data, grps)
+    return _REF[k]
+
+
 def nontrivial_scope(shape, grps):
     return any(len(g) >= 2 and shape[g[0]] >= 2 for g in grps if g)
 
@@ -260,12 +353,13 @@ class Symmetrize(Family):
         for s, g in NINE[:1 if tier == "quick" else 2]:
             out.append({"shape": s, "data": [9 * v for v in gen.dense_data(rng, s)], "grps": g, "conv": "2d",
                         "kind": "random"})
-        return out
+        return with_variants(out)
 
     def evaluate(self, cases):
-        reqs, impls = [], []
+        reqs, impls, ltags = [], [], []
         for c in cases:
-            X = gen.mk_tensor(ttb, c["shape"], c["data"])
+            X, lay = build_tensor(c)
+            ltags.append(layout_tags(c, X, lay))
             g = grps_arg(c)
             T = {"shape": c["shape"], "data": c["data"]}
             per = {}
@@ -287,16 +381,16 @@ class Symmetrize(Family):
                 reqs.append({"op": "sym_symmetrize", "T": T, "grps": model_grps(c), "version": ver})
             reqs.append({"op": "sym_spec", "T": T, "grps": c["grps"]})
             impls.append(per)
-        models = drive(reqs)
+        models = drive_memo(reqs)
         out = []
         for k, (c, per) in enumerate(zip(cases, impls)):
             m_new, m_old, spec = models[3 * k], models[3 * k + 1], models[3 * k + 2]
-            ref = ref_average(c["shape"], c["data"], c["grps"])
+            ref = ref_average_memo(c["shape"], c["data"], c["grps"])
             if not deep_eq(jval(ref), spec["data"]) or spec["shape"] != c["shape"]:
                 raise DriverError(f"Lean symSpec and the Python reference disagree on {c}")
             tags = [f"N{len(c['shape'])}", f"groups{len(c['grps'])}", f"glen{len(c['grps'][0])}", c["kind"], c["conv"],
                     "proper" if sum(len(g) for g in c["grps"]) < len(c["shape"]) else "allmodes",
-                    "dyadic" if dyadic(ref) else "nondyadic"]
+                    "dyadic" if dyadic(ref) else "nondyadic"] + ltags[k]
             v = Verdict("ok", "", {str(a): b for a, b in per.items()}, {"new": m_new, "old": m_old}, spec, tags,
                         nontrivial_scope(c["shape"], c["grps"]))
 
@@ -359,14 +453,15 @@ class IsSymmetric(Family):
                     k = rng.randrange(len(data))
                     data[k] += rng.choice([-2, -1, 1, 3])
                 out.append({"shape": s, "data": data, "grps": g, "conv": conv_of(rng, s, g), "kind": kind})
-        return out
+        return with_variants(out)
 
     COMBOS = ((False, False), (True, False), (False, True), (True, True))
 
     def evaluate(self, cases):
-        reqs, impls = [], []
+        reqs, impls, ltags = [], [], []
         for c in cases:
-            X = gen.mk_tensor(ttb, c["shape"], c["data"])
+            X, lay = build_tensor(c)
+            ltags.append(layout_tags(c, X, lay))
             g = grps_arg(c)
             T = {"shape": c["shape"], "data": c["data"]}
             per = []
@@ -375,7 +470,7 @@ class IsSymmetric(Family):
                 reqs.append({"op": "sym_issymmetric", "T": T, "grps": model_grps(c), "version": ver, "details": det})
             reqs.append({"op": "sym_isSym", "T": T, "grps": c["grps"]})
             impls.append(per)
-        models = drive(reqs)
+        models = drive_memo(reqs)
         out = []
         for k, (c, per) in enumerate(zip(cases, impls)):
             ms = models[5 * k:5 * k + 4]
@@ -385,7 +480,7 @@ class IsSymmetric(Family):
                 raise DriverError(f"Lean IsSym and the Python reference disagree on {c}")
             tags = [f"N{len(c['shape'])}", f"groups{len(c['grps'])}", f"glen{len(c['grps'][0])}", c["kind"], c["conv"],
                     "sym" if want else "notsym",
-                    "proper" if sum(len(g) for g in c["grps"]) < len(c["shape"]) else "allmodes"]
+                    "proper" if sum(len(g) for g in c["grps"]) < len(c["shape"]) else "allmodes"] + ltags[k]
             v = Verdict("ok", "", per, ms, want, tags, nontrivial_scope(c["shape"], c["grps"]))
             for (ver, det), r, m in zip(self.COMBOS, per, ms):
                 name = f"issymmetric(version={'1' if ver else 'None'}, return_details={det})"
